@@ -77,7 +77,20 @@ func (h *DirHandler) AddOut(msg *fbb.Message) error {
 		return err
 	}
 
-	return ioutil.WriteFile(path.Join(h.MBoxPath, DIR_OUTBOX, msg.MID()+Ext), data, 0644)
+	return writeFileAtomic(path.Join(h.MBoxPath, DIR_OUTBOX, msg.MID()+Ext), data, 0644)
+}
+
+// writeFileAtomic writes data to a temporary dot-file in the same directory and
+// renames it into place, so a crash can never leave a partially written message
+// under its final name (dot-files are ignored when a folder is loaded).
+func writeFileAtomic(filename string, data []byte, perm os.FileMode) error {
+	dir, name := path.Split(filename)
+	tmp := path.Join(dir, "."+name+".tmp")
+	if err := ioutil.WriteFile(tmp, data, perm); err != nil {
+		os.Remove(tmp)
+		return err
+	}
+	return os.Rename(tmp, filename)
 }
 
 func (h *DirHandler) ProcessInbound(msgs ...*fbb.Message) (err error) {
@@ -92,7 +105,7 @@ func (h *DirHandler) ProcessInbound(msgs ...*fbb.Message) (err error) {
 			return err
 		}
 
-		if err = ioutil.WriteFile(filename, data, 0664); err != nil {
+		if err = writeFileAtomic(filename, data, 0664); err != nil {
 			return fmt.Errorf("Unable to write received message (%s): %s", filename, err)
 		}
 	}
@@ -283,5 +296,5 @@ func SetUnread(msg *fbb.Message, unread bool) error {
 	if filePath == "" {
 		return fmt.Errorf("Missing X-FilePath header")
 	}
-	return ioutil.WriteFile(filePath, data, 0644)
+	return writeFileAtomic(filePath, data, 0644)
 }
